@@ -354,15 +354,24 @@ func NewMonitor(publisher Publisher, handler Handler) (kcache.Monitor, error) {
 			handler.OnInitialize(aobjs)
 		}).
 		OnCreate(func(obj metav1.Object) {
-			aobj, _ := adapter.adaptObject(obj)
+			aobj, err := adapter.adaptObject(obj)
+			if err != nil {
+				return
+			}
 			handler.OnCreate(aobj)
 		}).
 		OnUpdate(func(obj metav1.Object) {
-			aobj, _ := adapter.adaptObject(obj)
+			aobj, err := adapter.adaptObject(obj)
+			if err != nil {
+				return
+			}
 			handler.OnUpdate(aobj)
 		}).
 		OnDelete(func(obj metav1.Object) {
-			aobj, _ := adapter.adaptObject(obj)
+			aobj, err := adapter.adaptObject(obj)
+			if err != nil {
+				return
+			}
 			handler.OnDelete(aobj)
 		}).Create()
 
